@@ -169,6 +169,27 @@ func VerifC03Forged() {
 		vstub.Assert(!e.GetHash().Equals(forged.GetHash()), "C03 an entry not signed by a listed writer never becomes visible")
 	}
 	vstub.Assert(inLog(a, honest), "C03/C04 valid entries already held are unaffected")
+	// ... and not after a RESTART either: the refused entry is still in the local block
+	// store and may be reachable from a cached head's links; a fresh store over the
+	// same cache and blocks runs the real Load
+	_ = a.Close()
+	vstub.WaitIdle()
+	env2 := vstubodb.NewEnv("a", 1, "db", blocks, nil)
+	env2.Cache = env.Cache
+	opts2 := env2.Options(false)
+	opts2.AccessController = ac
+	r := &BaseStore{}
+	if err := r.InitBaseStore(env2.IPFS, env2.Identity, env2.Addr, opts2); err != nil {
+		vstub.Fail("InitBaseStore (restart) failed")
+		return
+	}
+	_ = r.Load(context.Background(), -1) // may report an error
+	vstub.WaitIdle()
+	vstub.Cover("restarted-and-loaded")
+	vstub.Assert(!inLog(r, forged), "C03 an entry not signed by a listed writer is not in the log after restart and load either")
+	for _, e := range r.Index().Get("").([]ipfslog.Entry) {
+		vstub.Assert(!e.GetHash().Equals(forged.GetHash()), "C03 an entry not signed by a listed writer is not visible after restart and load either")
+	}
 }
 
 // VerifC03LocalWrite: a local write by an identity outside the write list fails
